@@ -24,6 +24,10 @@ LEAN_MODULES = ['Pyc.Model.IndexedList']
 IDS = ['a', 'b', 'c', 'd', '']       # the empty string is an id like any other (a key that is falsy)
 
 
+# ids asked for: those in use, one that is not, and look-alikes of those in use (a URI fragment, other case, padding)
+PROBES = IDS + ['zz', '#a', '#b', '#', 'A', ' a', 'a ']
+
+
 def tok(i):
     """an id as a word of the line protocol"""
     return i if i != '' else '%'
@@ -292,11 +296,13 @@ class Impl(object):
                     if distinct and (len(op) > 2 and op[2] in ('tuple', 'iter') or k == 'imul' and op[1] % 2 == 0):
                         # the statement `doc.lights += x` also assigns the result back through the attribute
                         setattr(self.doc, self.host, tmp)
+                        self.disturb(tmp)
             elif k == 'selfassign':
                 if self.doc is not None and len(set(o.id for o in list.__iter__(getattr(self.doc, self.host)))) == len(getattr(self.doc, self.host)):
                     cur = getattr(self.doc, self.host)
                     data = {'same': cur, 'gen': (o for o in cur), 'listcopy': list(cur), 'filter-all': filter(lambda o: True, cur)}[op[1]]
                     setattr(self.doc, self.host, data)
+                    self.disturb(cur)
             elif k == 'badassign':
                 if self.doc is not None:
                     try:
@@ -340,6 +346,16 @@ class Impl(object):
         except Exception as e:
             return 'raw:' + type(e).__name__
 
+    def disturb(self, old):
+        """`old` is the list object the library was assigned FROM (the attribute wraps what it is given in a list of its own): the caller
+        may go on using it — here: an element under an id the library uses is added, the first one is taken out — without the library noticing"""
+        if old is getattr(self.doc, self.host):
+            return
+        n = len(old)
+        old.append(O(9000 + n, IDS[n % 4]))
+        if n:
+            del old[0]
+
     def apply(self, op):
         exp = self.shadow_apply(op)
         out = self.real_apply(op)
@@ -355,7 +371,7 @@ class Impl(object):
             return 'positional behaviour differs from a plain list: %s vs %s' % (items, self.shadow)
         if len(L) != len(items):
             return 'len() disagrees'
-        for k in IDS + ['zz']:
+        for k in PROBES:
             carriers = [o for o in items if o.id == k]
             try:
                 member = k in L
